@@ -18,6 +18,21 @@ def handshake_bytes(origin_port):
     }
 
 
+def client_hello():
+    """the first flight of a TLS client, produced by the ssl module without a socket"""
+    import ssl
+    ctx = ssl.SSLContext(ssl.PROTOCOL_TLS_CLIENT)
+    ctx.check_hostname = False
+    ctx.verify_mode = ssl.CERT_NONE
+    inc, out = ssl.MemoryBIO(), ssl.MemoryBIO()
+    o = ctx.wrap_bio(inc, out, server_hostname="localhost")
+    try:
+        o.do_handshake()
+    except ssl.SSLWantReadError:
+        pass
+    return out.read()
+
+
 def timed(fn):
     t0 = time.time()
     box = {}
@@ -79,7 +94,7 @@ def probes(topo, origin, situation, rules_body):
             c.close()
             return ok
         return f
-    for proto in ("http", "socks5", "socks4"):
+    for proto in ("http", "socks5", "socks4", "https", "sockstls"):
         ok, dt, why = patient(fresh(proto))
         out.append({"ev": "probe", "situation": situation, "kind": "fresh/" + proto, "ok": ok, "seconds": round(dt, 2), "why": why})
     return out
@@ -95,6 +110,10 @@ def run(tier, t0):
     asis = vlib.run_tlc("MCLocks", "MCLocksAsIs.cfg", workers=8, timeout=900, name="MCLocksAsIs")
     if asis.ok or "Inv is violated" not in asis.output:
         raise vlib.ToolError("self-test: the original lock programs should violate NoStallPropagation in the model")
+    tls = vlib.tlc_must_pass(vlib.run_tlc("MCLocks", "MCLocksTls.cfg", workers=4, timeout=600, name="MCLocksTls"), "MCLocksTls")
+    tlsl = vlib.run_tlc("MCLocks", "MCLocksTlsLocked.cfg", workers=4, timeout=600, name="MCLocksTlsLocked")
+    if tlsl.ok or "Inv is violated" not in tlsl.output:
+        raise vlib.ToolError("self-test: a TLS accept under the context's write lock should violate NoStallPropagation in the model")
     origin = bb.TcpOrigin()
     topo = scen.Topology(wd, "c14", splice=True, special=True, history=50, access_log=os.path.join(wd, "access.log")).start()
     st, body = topo.p1.api(topo.api1, "/rules")
@@ -106,10 +125,17 @@ def run(tier, t0):
         raise vlib.ToolError("positive control failed: %s" % [r for r in ctrl if not r["ok"]])
     records += ctrl
     hs = handshake_bytes(origin.port)
+    # clients that stall inside the TLS handshake of a TLS-wrapped listener (before the proxy handshake even starts)
+    ch = client_hello()
+    hs[("https", "direct")] = ch
+    hs[("sockstls", "direct")] = ch
     held = []
     situations = 0
     for key, msg in hs.items():
         offs = list(range(len(msg) + 1)) if thorough else sorted(set([0, 1, 2, 3, len(msg) // 2, len(msg) - 1] + [i for i in range(len(msg)) if msg[i:i + 1] in (b" ", b"\r", b"\n", b"\x00", b"\x05")]))
+        if key[0] in ("https", "sockstls"):
+            # record header, inside the hello, the whole first flight (the server then waits for the client's second one)
+            offs = sorted(set([0, 1, 3, 5, 6, len(msg) // 2, len(msg) - 1, len(msg)] + (list(range(0, len(msg), 16)) if thorough else [])))
         batch = []
         for k in offs:
             try:
